@@ -89,6 +89,18 @@ CHECKS: dict[str, tuple[str, str, str, str, str]] = {
             "protobuf runtime; re-entrant subscribe/unsubscribe histories are judged by a snapshot-semantics reference dispatcher.",
             "runtime monitoring: dispatch trace vs reference dispatcher; exhaustive id sweep with payload classes",
             "DESIGN.md §4 C12"),
+    "C13": ("T+S", "exploration",
+            "Structural invariant check of the live module tables and compiled descriptors against the api.proto TEXT (independent parser): every "
+            "declared message x every obligation, enumerated completely; plus direction monitors on the wire (device-side decode) and on "
+            "_add_message_callback during a sweep of every public APIClient method.",
+            "runtime monitoring: invariant walk of live tables/descriptors vs independent .proto text parser + direction monitors during API sweep",
+            "DESIGN.md §4 C13"),
+    "C14": ("T", "exploration",
+            "The real conversion code is run on descriptor-generated valid wire messages (each field at each boundary value, all declared and "
+            "undeclared enum numbers, float32 specials + 200k/5M random bit patterns) and compared field by field with a descriptor-driven "
+            "expected value; enum member tables (incl. aliases) are compared with the wire enums; to_dict/from_dict round trips.",
+            "runtime monitoring: differential check of real conversions vs descriptor-derived reference over generated inputs",
+            "DESIGN.md §4 C14"),
 }
 
 NOT_YET = {
